@@ -1111,7 +1111,7 @@ def violations(req, impl):
             for a in A:
                 scalar_names(a, (norm(a["code"]),), sa)
             for key in sb:
-                if key in sa and sb[key] != sa[key] and o not in ("cdestroy", "mkblock", "mkframe"):
+                if key in sa and sb[key] != sa[key] and o not in ("cdestroy", "mkblock", "mkframe", "itabort"):
                     cls = F32_CLASS if (o == "setcat" and op["cat"] is None and sb[key]) else None
                     out.append((cls, "%s: item %r %s the scalar loop" % (where, key[1], "left" if sb[key] else "entered")))
                     break
